@@ -1,0 +1,17 @@
+// SPDX-FileCopyrightText: 2023 The Pion community <https://pion.ly>
+// SPDX-License-Identifier: MIT
+
+//go:build verif
+
+package deadline
+
+// Machine-checked contracts for /verif (govc).  Comment-only.
+
+//@ arith int
+
+//@ trusted func New() (d *Deadline)
+//@   ensures d != nil && fresh(d)
+
+//@ trusted func (d *Deadline) Done() (c <-chan struct{})
+//@   pure
+//@   ensures c != nil
